@@ -76,6 +76,7 @@ type tfun struct {
 	text     string
 	skipped  []string
 	inputs   map[string]string
+	chans    map[string]string
 	calls    map[string]string
 	capture  bool
 	view     string   // suffix of the structure name: a separate record of the receiver's fields for this group of functions
@@ -205,11 +206,12 @@ func newTranslator(p *pkg, gen string) *translator {
 }
 
 type env struct {
-	t      *translator
-	f      *tfun
-	rname  string
-	vars   map[string]gty
-	lnames map[string]string // Go local -> Lean name
+	pendingMoves []string
+	t            *translator
+	f            *tfun
+	rname        string
+	vars         map[string]gty
+	lnames       map[string]string // Go local -> Lean name
 }
 
 func (e *env) fail(format string, a ...interface{}) { panic(refuse{fmt.Sprintf(format, a...)}) }
@@ -226,6 +228,10 @@ func (e *env) useField(name string) gty {
 	ty, ok := e.f.st.ftype[name]
 	if !ok {
 		e.fail("unknown field %s", name)
+	}
+	if _, isChan := e.f.chans[name]; isChan {
+		ty = tInt
+		e.f.st.ftype[name] = tInt
 	}
 	if ty == tUnknown {
 		e.fail("field %s has a type outside the subset", name)
@@ -290,6 +296,9 @@ func (e *env) expr(x ast.Expr) (string, gty) {
 	case *ast.BasicLit:
 		if v.Kind == token.INT {
 			return v.Value, tUntyped
+		}
+		if v.Kind == token.STRING && strings.HasPrefix(v.Value, "\"guard:") {
+			return strings.TrimSuffix(strings.TrimPrefix(v.Value, "\"guard:"), "\""), tBool
 		}
 		e.fail("literal %s", v.Value)
 	case *ast.Ident:
@@ -427,6 +436,12 @@ func (e *env) call(v *ast.CallExpr) (string, gty) {
 			if _, shadowed := e.vars["len"]; shadowed {
 				e.fail("call of a shadowed len")
 			}
+			if f, ok := e.recvField(v.Args[0]); ok {
+				if _, isChan := e.f.chans[f]; isChan {
+					e.useField(f)
+					return fmt.Sprintf("%s.%s", e.rname, leanIdent(f)), tInt
+				}
+			}
 			s, ty := e.expr(v.Args[0])
 			if ty != tPtrList && ty != tIntList {
 				e.fail("len of %s", e.t.p.str(v.Args[0]))
@@ -505,6 +520,129 @@ func (e *env) call(v *ast.CallExpr) (string, gty) {
 
 // ---- statements
 
+// chanOp: a select case `r.f <- struct{}{}` (send) or `<-r.f` (receive) on a channel field modelled as a counter;
+// returns the guard and the statement that moves the token
+func (e *env) chanOp(comm ast.Stmt) (guard string, move string) {
+	switch c := comm.(type) {
+	case *ast.SendStmt:
+		if f, ok := e.recvField(c.Chan); ok {
+			if capF, isChan := e.f.chans[f]; isChan {
+				e.useField(f)
+				e.useField(capF)
+				return fmt.Sprintf("(decide (%s.%s < %s.%s))", e.rname, leanIdent(f), e.rname, leanIdent(capF)),
+					fmt.Sprintf("let %s := { %s with %s := %s.%s + 1 }", e.rname, e.rname, leanIdent(f), e.rname, leanIdent(f))
+			}
+		}
+	case *ast.ExprStmt:
+		if u, ok := c.X.(*ast.UnaryExpr); ok && u.Op == token.ARROW {
+			if f, ok := e.recvField(u.X); ok {
+				if _, isChan := e.f.chans[f]; isChan {
+					e.useField(f)
+					return fmt.Sprintf("(decide (%s.%s > 0))", e.rname, leanIdent(f)),
+						fmt.Sprintf("let %s := { %s with %s := %s.%s - 1 }", e.rname, e.rname, leanIdent(f), e.rname, leanIdent(f))
+				}
+			}
+		}
+	}
+	e.fail("select case %s", e.t.p.str(comm))
+	return "", ""
+}
+
+// chanMove: a marker statement carrying the Lean text that moves a token
+type chanMove struct {
+	ast.EmptyStmt
+	text string
+}
+
+// selectToIf: `select { case <chan op>: A  default: B }` (exactly one communication case and a default)
+func (e *env) selectToIf(v *ast.SelectStmt) *ast.IfStmt {
+	var comm *ast.CommClause
+	var dflt *ast.CommClause
+	for _, c := range v.Body.List {
+		cc := c.(*ast.CommClause)
+		if cc.Comm == nil {
+			dflt = cc
+		} else if comm == nil {
+			comm = cc
+		} else {
+			e.fail("select with several communication cases")
+		}
+	}
+	if comm == nil || dflt == nil {
+		e.fail("select without a default (blocking)")
+	}
+	guard, move := e.chanOp(comm.Comm)
+	e.pendingMoves = append(e.pendingMoves, move)
+	marker := &ast.ExprStmt{X: &ast.BasicLit{Kind: token.STRING, Value: fmt.Sprintf("\"chanmove:%d\"", len(e.pendingMoves)-1)}}
+	cond := &ast.BasicLit{Kind: token.STRING, Value: "\"guard:" + guard + "\""}
+	return &ast.IfStmt{Cond: cond, Body: &ast.BlockStmt{List: append([]ast.Stmt{marker}, comm.Body...)}, Else: &ast.BlockStmt{List: dflt.Body}}
+}
+
+// drainLoop: see the ForStmt case
+func (e *env) drainLoop(sel *ast.SelectStmt, ind string) string {
+	var comm, dflt *ast.CommClause
+	for _, c := range sel.Body.List {
+		cc := c.(*ast.CommClause)
+		if cc.Comm == nil {
+			dflt = cc
+		} else {
+			comm = cc
+		}
+	}
+	if comm == nil || dflt == nil || len(sel.Body.List) != 2 {
+		e.fail("drain loop shape")
+	}
+	es, ok := comm.Comm.(*ast.ExprStmt)
+	if !ok {
+		e.fail("drain loop: the case is not a receive")
+	}
+	u, ok := es.X.(*ast.UnaryExpr)
+	if !ok || u.Op != token.ARROW {
+		e.fail("drain loop: the case is not a receive")
+	}
+	f, ok := e.recvField(u.X)
+	if !ok {
+		e.fail("drain loop channel")
+	}
+	if _, isChan := e.f.chans[f]; !isChan {
+		e.fail("drain loop channel")
+	}
+	e.useField(f)
+	// the body: constant assignments to locals only
+	names := []string{}
+	var body strings.Builder
+	for _, st := range comm.Body {
+		as, ok := st.(*ast.AssignStmt)
+		if !ok || as.Tok != token.ASSIGN || len(as.Lhs) != 1 {
+			e.fail("drain loop body")
+		}
+		id, ok := as.Lhs[0].(*ast.Ident)
+		if !ok {
+			e.fail("drain loop body")
+		}
+		if _, isLocal := e.vars[id.Name]; !isLocal {
+			e.fail("drain loop body")
+		}
+		rid, ok := as.Rhs[0].(*ast.Ident)
+		if !ok || (rid.Name != "true" && rid.Name != "false") {
+			e.fail("drain loop body assigns a non-constant")
+		}
+		names = append(names, e.lnames[id.Name])
+		body.WriteString(fmt.Sprintf("%s    let %s := %s\n", ind, e.lnames[id.Name], rid.Name))
+	}
+	fl := leanIdent(f)
+	tup := tupleOf(append([]string{e.rname}, names...))
+	var sb strings.Builder
+	sb.WriteString(fmt.Sprintf("%slet %s :=\n%s  if (decide (%s.%s > 0)) then\n%s    let %s := { %s with %s := 0 }\n%s%s    %s\n%s  else\n%s    %s\n",
+		ind, tup, ind, e.rname, fl, ind, e.rname, e.rname, fl, body.String(), ind, tup, ind, ind, tup))
+	// the default case ends the loop (it must return)
+	if !hasReturn(dflt.Body) {
+		e.fail("drain loop: the default case does not return")
+	}
+	sb.WriteString(e.block(dflt.Body, "()", ind))
+	return sb.String()
+}
+
 // mutCall: `r.f()` where f is an already translated method of the receiver that changes it and has one result
 func (e *env) mutCall(x ast.Expr) *tfun {
 	call, ok := x.(*ast.CallExpr)
@@ -569,6 +707,16 @@ func (e *env) assigned(stmts []ast.Stmt, out map[string]bool) {
 					} else {
 						out[e.rname] = true
 					}
+				}
+			case *ast.BasicLit:
+				if v.Kind == token.STRING && strings.HasPrefix(v.Value, "\"chanmove:") {
+					out[e.rname] = true
+				}
+			case *ast.SendStmt:
+				out[e.rname] = true
+			case *ast.UnaryExpr:
+				if v.Op == token.ARROW {
+					out[e.rname] = true
 				}
 			case *ast.IncDecStmt:
 				if id, ok := v.X.(*ast.Ident); ok {
@@ -779,6 +927,24 @@ func (e *env) block(stmts []ast.Stmt, fall string, ind string) string {
 			}
 			sb.WriteString(e.assignTo(v.X, wrap(lty, "("+cur+" "+op+" 1)"), lty, ind))
 		case *ast.ExprStmt:
+			if bl, ok := v.X.(*ast.BasicLit); ok && bl.Kind == token.STRING && strings.HasPrefix(bl.Value, "\"chanmove:") {
+				var k int
+				fmt.Sscanf(bl.Value, "\"chanmove:%d\"", &k)
+				sb.WriteString(ind + e.pendingMoves[k] + "\n")
+				continue
+			}
+			if u, ok := v.X.(*ast.UnaryExpr); ok && u.Op == token.ARROW {
+				// `<-r.f`: takes one token (on an empty channel the goroutine would block: the counter stays at 0)
+				if f, ok := e.recvField(u.X); ok {
+					if _, isChan := e.f.chans[f]; isChan {
+						e.useField(f)
+						fl := leanIdent(f)
+						sb.WriteString(fmt.Sprintf("%slet %s := { %s with %s := (if %s.%s > 0 then %s.%s - 1 else %s.%s) }\n", ind, e.rname, e.rname, fl, e.rname, fl, e.rname, fl, e.rname, fl))
+						continue
+					}
+				}
+				e.fail("receive %s", e.t.p.str(u))
+			}
 			call, ok := v.X.(*ast.CallExpr)
 			if !ok {
 				e.fail("expression statement")
@@ -855,7 +1021,21 @@ func (e *env) block(stmts []ast.Stmt, fall string, ind string) string {
 			if e.ifReturns(switchToIf(v)) {
 				return sb.String()
 			}
+		case *ast.SelectStmt:
+			ifs := e.selectToIf(v)
+			sb.WriteString(e.ifStmt(ifs, rest, fall, ind))
+			if e.ifReturns(ifs) {
+				return sb.String()
+			}
 		case *ast.ForStmt:
+			if v.Init == nil && v.Cond == nil && v.Post == nil && len(v.Body.List) == 1 {
+				if sel, ok := v.Body.List[0].(*ast.SelectStmt); ok {
+					// `for { select { case <-r.f: S  default: return X } }`: drains the channel; S (constant assignments to
+					// locals only) has the effect of one execution iff the channel held a token
+					sb.WriteString(e.drainLoop(sel, ind))
+					return sb.String()
+				}
+			}
 			sb.WriteString(e.forStmt(v, ind))
 		case *ast.BlockStmt:
 			sb.WriteString(e.block(append(append([]ast.Stmt{}, v.List...), rest...), fall, ind))
@@ -1120,6 +1300,7 @@ type tspec struct {
 	view                   string
 	sliceAt                string            // like sliceFrom, but the first statement (anywhere in the body, also inside closures and select arms) whose text starts with this
 	inputs                 map[string]string // source text of an expression -> "name:type" (int|bool): an input of the translated code
+	chanCap                map[string]string // field that is a `chan struct{}` -> the field holding its capacity: the channel is the number of tokens in it
 	sliceHas               string            // ... and contains this
 	captureCalls           map[string]string // text of a called function -> name: the statement `f(x)` sets <name>Called := true, <name>Arg := x
 	captureEmit            bool              // an Emit / emit call assigns its event (and message constant) to the string variable `ev`
@@ -1136,7 +1317,7 @@ func (t *translator) translate(sp tspec) (res *tfun, why string) {
 	if st == nil {
 		return nil, "receiver struct not found"
 	}
-	f := &tfun{lean: sp.lean, decl: fd, recv: sp.recv, st: st, opaque: sp.opaque, view: sp.view, inputs: sp.inputs, capture: sp.captureEmit, calls: sp.captureCalls}
+	f := &tfun{lean: sp.lean, decl: fd, recv: sp.recv, st: st, opaque: sp.opaque, view: sp.view, inputs: sp.inputs, capture: sp.captureEmit, calls: sp.captureCalls, chans: sp.chanCap}
 	e := &env{t: t, f: f, vars: map[string]gty{}, lnames: map[string]string{}}
 	e.rname = fd.Recv.List[0].Names[0].Name
 	defer func() {
@@ -1470,6 +1651,10 @@ func transAll(v1, v2 *pkg) string {
 			inputs: map[string]string{"r.ratelimiter != nil": "limited:bool", "r.emitRequest": "emitRequest:bool"}, captureCalls: map[string]string{"r.ratelimiter.GiveMe": "giveMe"}},
 		{file: "batcher.go", recv: "batcher", name: "Enqueue", lean: "v2_enqueueTail", sliceAt: "r.incTarget(int(op.Cost()))", sliceN: 4,
 			inputs: map[string]string{"op.Cost()": "cost:int", "r.buffer.enqueue(op, r.errorOnFullBuffer)": "enqErr:err"}},
+		{file: "batcher.go", recv: "batcher", name: "tryReserveBatchSlot", lean: "v2_tryReserveBatchSlot", view: "_slots", chanCap: map[string]string{"inflight": "maxConcurrentBatches"}},
+		{file: "batcher.go", recv: "batcher", name: "releaseBatchSlot", lean: "v2_releaseBatchSlot", view: "_slots", chanCap: map[string]string{"inflight": "maxConcurrentBatches"}},
+		{file: "batcher.go", recv: "batcher", name: "confirmInflightIsZero", lean: "v2_confirmInflightIsZero", view: "_slots", chanCap: map[string]string{"inflight": "maxConcurrentBatches"}},
+		{file: "batcher.go", recv: "batcher", name: "Inflight", lean: "v2_Inflight", view: "_slots", chanCap: map[string]string{"inflight": "maxConcurrentBatches"}},
 		{file: "batcher.go", recv: "batcher", name: "resume", lean: "v2_resume", view: "_ph"},
 		{file: "batcher.go", recv: "batcher", name: "Start", lean: "v2_pauseArm", view: "_ph", sliceAt: "r.Emit(PauseEvent", sliceN: 4, sliceOut: []string{"sleepCalled", "sleepArg"},
 			inputs: map[string]string{"r.pauseTime": "pauseTime:int"}, captureCalls: map[string]string{"time.Sleep": "sleep"}},
